@@ -161,4 +161,125 @@ theorem fit_uses_chord {R : ℝ} (hR : 0 < R) (lat1 lon1 lat2 lon2 : ℝ) :
   simp only [fitLag, if_true]
   exact (chord_of_haversine hR ..).symm
 
+/-! ### converting to 3-D and back -/
+
+theorem pos2latlon_real (R : ℝ) (p : P3 ℝ) :
+    pos2latlon R p = (rad2deg (Real.arcsin (clip (-1) 1 (p.z / R))), rad2deg (Complex.arg ⟨p.x, p.y⟩)) := by
+  simp [pos2latlon]
+
+/-- latitude survives latlon → 3-D → latlon on the whole closed range, poles included, for every longitude -/
+theorem latlon_roundtrip_lat {R : ℝ} (hR : 0 < R) {lat : ℝ} (h1 : -90 ≤ lat) (h2 : lat ≤ 90) (lon : ℝ) :
+    (pos2latlon R (latlon2pos R lat lon)).1 = lat := by
+  rw [pos2latlon_real, latlon2pos_real]
+  simp only
+  have hz : R * Real.sin (deg2rad lat) * 1 / R = Real.sin (deg2rad lat) := by field_simp
+  rw [hz, clip_of_mem (Real.neg_one_le_sin _) (Real.sin_le_one _)]
+  have l1 : -(π / 2) ≤ deg2rad lat := by rw [← deg2rad_neg90]; exact deg2rad_le h1
+  have l2 : deg2rad lat ≤ π / 2 := by rw [← deg2rad_90]; exact deg2rad_le h2
+  rw [Real.arcsin_sin l1 l2, rad2deg_deg2rad]
+
+theorem arg_polar {r θ : ℝ} (hr : 0 < r) (h1 : -π < θ) (h2 : θ ≤ π) :
+    Complex.arg ⟨r * Real.cos θ, r * Real.sin θ⟩ = θ := by
+  have := Complex.arg_mul_cos_add_sin_mul_I hr (θ := θ) ⟨h1, h2⟩
+  have e : (⟨r * Real.cos θ, r * Real.sin θ⟩ : ℂ) = ↑r * (Complex.cos ↑θ + Complex.sin ↑θ * Complex.I) := by
+    apply Complex.ext <;> simp [← Complex.ofReal_cos, ← Complex.ofReal_sin]
+  rw [e]; exact this
+
+/-- longitude survives away from the poles for `lon ∈ (−180, 180]` -/
+theorem latlon_roundtrip_lon {R : ℝ} (hR : 0 < R) {lat lon : ℝ} (h1 : -90 < lat) (h2 : lat < 90)
+    (h3 : -180 < lon) (h4 : lon ≤ 180) :
+    (pos2latlon R (latlon2pos R lat lon)).2 = lon := by
+  rw [pos2latlon_real, latlon2pos_real]
+  simp only
+  have l1 : -(π / 2) < deg2rad lat := by rw [← deg2rad_neg90]; exact deg2rad_lt h1
+  have l2 : deg2rad lat < π / 2 := by rw [← deg2rad_90]; exact deg2rad_lt h2
+  have hc : 0 < Real.cos (deg2rad lat) := Real.cos_pos_of_mem_Ioo ⟨l1, l2⟩
+  have m1 : -π < deg2rad lon := by rw [← deg2rad_neg180]; exact deg2rad_lt h3
+  have m2 : deg2rad lon ≤ π := by rw [← deg2rad_180]; exact deg2rad_le h4
+  rw [arg_polar (mul_pos hR hc) m1 m2, rad2deg_deg2rad]
+
+/-- longitudes are only meaningful modulo 360 -/
+theorem latlon2pos_periodic (R lat lon : ℝ) (k : ℤ) :
+    latlon2pos R lat (lon + 360 * (k : ℝ)) = latlon2pos R lat lon := by
+  rw [latlon2pos_real, latlon2pos_real, deg2rad_add, deg2rad_360_mul,
+    Real.cos_add_int_mul_two_pi, Real.sin_add_int_mul_two_pi]
+
+/-- full statement of the round trip: any longitude comes back as its representative in `(−180, 180]` -/
+theorem latlon_roundtrip {R : ℝ} (hR : 0 < R) {lat lon : ℝ} (h1 : -90 < lat) (h2 : lat < 90)
+    (h3 : -180 < lon) (h4 : lon ≤ 180) (k : ℤ) :
+    pos2latlon R (latlon2pos R lat (lon + 360 * (k : ℝ))) = (lat, lon) := by
+  rw [latlon2pos_periodic]
+  exact Prod.ext (latlon_roundtrip_lat hR h1.le h2.le lon) (latlon_roundtrip_lon hR h1 h2 h3 h4)
+
+example : (0:ℝ) < 6371 ∧ (-90:ℝ) < 45 ∧ (45:ℝ) < 90 ∧ (-180:ℝ) < 180 ∧ (180:ℝ) ≤ 180 := by norm_num
+
+/-- what is lost at the poles (over ℝ): the longitude comes back as 0 -/
+theorem pole_longitude_lost (R lon : ℝ) :
+    (pos2latlon R (latlon2pos R 90 lon)).2 = 0 ∧ (pos2latlon R (latlon2pos R (-90) lon)).2 = 0 := by
+  constructor <;>
+  · rw [pos2latlon_real, latlon2pos_real]
+    simp only
+    first
+    | rw [deg2rad_90, Real.cos_pi_div_two]
+    | rw [deg2rad_neg90, Real.cos_neg, Real.cos_pi_div_two]
+    simp [rad2deg, Complex.arg]
+
+
+/-- 3-D → latlon → 3-D is the identity on the whole sphere (poles and date line included) -/
+theorem pos_roundtrip {R : ℝ} (hR : 0 < R) (p : P3 ℝ) (hp : P3.normSq p = R * R) :
+    latlon2pos R (pos2latlon R p).1 (pos2latlon R p).2 = p := by
+  obtain ⟨x, y, z⟩ := p
+  simp only [P3.normSq] at hp
+  rw [pos2latlon_real, latlon2pos_real]
+  simp only [deg2rad_rad2deg]
+  have hz2 : z * z ≤ R * R := by nlinarith [mul_self_nonneg x, mul_self_nonneg y]
+  have hzR : |z| ≤ R := abs_le_of_sq_le_sq' (by nlinarith) hR.le |> fun h => abs_le.mpr h
+  have hz1 : -1 ≤ z / R := by rw [le_div_iff₀ hR]; linarith [(abs_le.mp hzR).1]
+  have hz3 : z / R ≤ 1 := by rw [div_le_one hR]; exact (abs_le.mp hzR).2
+  rw [clip_of_mem hz1 hz3, Real.sin_arcsin hz1 hz3, Real.cos_arcsin]
+  set w : ℂ := ⟨x, y⟩ with hw
+  have hn : ‖w‖ = R * Real.sqrt (1 - (z / R) ^ 2) := by
+    rw [Complex.norm_def, Complex.normSq_mk]
+    have : x * x + y * y = (R * R) * (1 - (z / R) ^ 2) := by field_simp; linarith
+    rw [this, Real.sqrt_mul (mul_self_nonneg R), Real.sqrt_mul_self hR.le]
+  have hzz : R * (z / R) * 1 = z := by field_simp
+  by_cases h0 : w = 0
+  · have hx : x = 0 := by have := congrArg Complex.re h0; simpa [hw] using this
+    have hy : y = 0 := by have := congrArg Complex.im h0; simpa [hw] using this
+    have hs : Real.sqrt (1 - (z / R) ^ 2) = 0 := by
+      have : ‖w‖ = 0 := by rw [h0]; simp
+      rw [hn] at this
+      exact (mul_eq_zero.mp this).resolve_left hR.ne'
+    rw [hs, hx, hy, hzz]; simp
+  · have hc := Complex.cos_arg h0
+    have hs := Complex.sin_arg w
+    have hn0 : ‖w‖ ≠ 0 := norm_ne_zero_iff.mpr h0
+    rw [hc, hs, ← hn, hzz]
+    have e1 : ‖w‖ * (w.re / ‖w‖) = x := by field_simp; rfl
+    have e2 : ‖w‖ * (w.im / ‖w‖) = y := by field_simp; rfl
+    rw [e1, e2]
+
+example : P3.normSq (⟨0, 0, -2⟩ : P3 ℝ) = 2 * 2 := by simp [P3.normSq]
+
+/-! ### time axis of lat-lon + temporal models -/
+
+/-- constructor rule: spatial ratios forced to 1, the time ratio is kept -/
+theorem latlon_temporal_anis (a b c : ℝ) : modelAnis true [a, b, c] = [1, 1, c] := by
+  simp [modelAnis, List.zipIdx]
+
+/-- the time axis is appended and divided by the last anisotropy ratio only; the spatial part is the sphere
+    point and does not depend on the time or on any anisotropy / angle given by the user -/
+theorem time_axis_latlon (R a b c lat lon t : ℝ) :
+    isometrizeLL R true (modelAnis true [a, b, c]) lat lon t
+      = (latlon2pos R lat lon).toList ++ [t / c] := by
+  rw [latlon_temporal_anis]
+  simp [isometrizeLL, latlon2posT, lastAnis]
+
+/-- … and `anisometrize` gives the time back -/
+theorem time_axis_roundtrip (R a b c : ℝ) (hc : c ≠ 0) (p : P3 ℝ) (t : ℝ) :
+    anisometrizeLL R true (modelAnis true [a, b, c]) p (t / c)
+      = [(pos2latlon R p).1, (pos2latlon R p).2, t] := by
+  rw [latlon_temporal_anis]
+  simp [anisometrizeLL, pos2latlonT, lastAnis, hc]
+
 end GSV.Props.C13
